@@ -346,8 +346,11 @@ CLOUD_TRUSTED = [
 PROPS['C10'] = {
     'level': 'proof',
     'level_text': 'Proof (Verus, functions verbatim, environment opaque) of the isolation frame conditions: a payload received from a peer causes no datagram to leave the node (no relaying) and at most one interface write, byte-identical to the payload; only the DATA arm of handle_message writes to the interface; datagrams from addresses that are neither peers nor in a handshake never reach the interface, and if they are not handshake messages change nothing but counters; frames read from the own interface are never written back to it; send_msg sends nothing to a non-peer and at most one datagram, to the selected peer. NOT decided: exactly-once delivery to every selected peer (broadcast loop over a HashMap), byte-identity across the AEAD.',
-    'verus': [{'unit': 'cloud'}],
-    'trusted': CLOUD_TRUSTED,
+    'verus': [{'unit': 'cloud'},
+              # which peer is "selected" for a frame: the learned / claimed next hop (last writer wins, longest prefix)
+              {'unit': 'table', 'fns': ['ClaimTable::cache', 'ClaimTable::lookup']}],
+    'native_search': {r'table::.*': TABLE_MODEL},
+    'trusted': CLOUD_TRUSTED + TABLE_TRUSTED,
     'not_decided': [
         'exactly-once delivery to every selected peer and to no other (GenericCloud::broadcast_msg iterates a HashMap: no iterator spec in this Verus)',
         'byte-identical delivery end to end (crosses PeerCrypto::send_message / handle_message: buffer geometry is under C08, AEAD is an oracle)',
